@@ -17,8 +17,10 @@ void trap(Trap t) {
     for (;;) { }
 #endif
 }
-static unsigned int vh_f32bits(float f) { unsigned int u; memcpy(&u, &f, 4); return u; }
-static unsigned long long vh_f64bits(double f) { unsigned long long u; memcpy(&u, &f, 8); return u; }
-static float vh_bitsf32(unsigned int u) { float f; memcpy(&f, &u, 4); return f; }
-static double vh_bitsf64(unsigned long long u) { double f; memcpy(&f, &u, 8); return f; }
+typedef union vh_pun32 { float f; unsigned int u; } vh_pun32;
+typedef union vh_pun64 { double f; unsigned long long u; } vh_pun64;
+static unsigned int vh_f32bits(float f) { vh_pun32 p; p.f = f; return p.u; }
+static unsigned long long vh_f64bits(double f) { vh_pun64 p; p.f = f; return p.u; }
+static float vh_bitsf32(unsigned int u) { vh_pun32 p; p.u = u; return p.f; }
+static double vh_bitsf64(unsigned long long u) { vh_pun64 p; p.u = u; return p.f; }
 #endif
